@@ -466,7 +466,7 @@ class Program:
         return "%s:%d" % (self.rel(node.fn.file) if node.fn else "?", node.l)
 
 
-def load(repo="/repo"):
+def load(repo="/repo", like=None):
     from . import extract
-    cdir = extract.extract(repo)
+    cdir = extract.extract(repo, like=like)
     return Program(cdir, repo)
